@@ -35,6 +35,13 @@ def caps_agree(spec_slots, impl_slots):
 
 
 class C10(Prop):
+    named_errors = set()
+
+    def project(self, op, ans):
+        # `hits` is a performance counter and `range` the iterator's internal resume point after
+        # exhaustion: the property constrains neither (a faster strategy must not raise an alarm)
+        a = Prop.project(self, op, ans)
+        return re.sub(r" range=\d+\.\.\d+ hits=\d+", "", a) if isinstance(a, str) else a
     pid = "C10"
     title = "the scanner reports exactly the positions where the pattern matches"
     thm_modules = ["PeliteModel.Thm.C10"]
